@@ -117,3 +117,72 @@ Proof.
     apply (Hk k); [unfold buf_get in B; congruence|rewrite E; reflexivity].
   - unfold x_get_flags, fl_get. rewrite E. reflexivity.
 Qed.
+
+(* ---------- SelectValueHistory / InspectStage ---------- *)
+Lemma C07_history_proof : forall st k,
+  hd_error (x_history st k) = buf_get (x_b st) k /\
+  (forall v, In v (x_history st k) <-> In (k, v) (b_log (x_b st))).
+Proof.
+  intros st k. unfold x_history, buf_get. split.
+  - induction (b_log (x_b st)) as [|[k0 v0] l IH]; cbn [filter map kv_get fst hd_error]; [reflexivity|].
+    destruct (bytes_eqb k0 k); [reflexivity|exact IH].
+  - intros v. rewrite in_map_iff. split.
+    + intros ([k0 v0] & E & H). cbn in E. subst v0. apply filter_In in H. destruct H as [H1 H2].
+      cbn in H2. apply bytes_eqb_eq in H2. subst k0. exact H1.
+    + intros H. exists (k, v). split; [reflexivity|]. apply filter_In. split; [exact H|]. cbn. apply eqb_refl.
+Qed.
+
+Lemma key_mem_cons k k0 seen : key_mem k (k0 :: seen) = bytes_eqb k0 k || key_mem k seen.
+Proof. reflexivity. Qed.
+
+Lemma heads_only_spec l : forall seen k v,
+  In (k, v) (heads_only seen l) <-> key_mem k seen = false /\ kv_get l k = Some v.
+Proof.
+  induction l as [|[k0 v0] r IH]; intros seen k v; cbn [heads_only kv_get].
+  - split; [contradiction|intros [_ H]; discriminate].
+  - destruct (key_mem k0 seen) eqn:M.
+    + rewrite IH. destruct (bytes_eqb k0 k) eqn:E; [|reflexivity].
+      apply bytes_eqb_eq in E; subst k0. rewrite M. split; intros [H _]; discriminate.
+    + cbn [In]. rewrite IH, key_mem_cons. destruct (bytes_eqb k0 k) eqn:E; cbn [orb].
+      * apply bytes_eqb_eq in E; subst k0. split.
+        -- intros [[= ->]|[H _]]; [split; [exact M|reflexivity]|discriminate].
+        -- intros [_ [= ->]]. left; reflexivity.
+      * split.
+        -- intros [[= -> ->]|H]; [rewrite eqb_refl in E; discriminate|exact H].
+        -- intros H. right; exact H.
+Qed.
+
+Lemma heads_only_nodup l : forall seen, NoDup (map fst (heads_only seen l)).
+Proof.
+  induction l as [|[k0 v0] r IH]; intros seen; cbn [heads_only]; [constructor|].
+  destruct (key_mem k0 seen); [apply IH|]. cbn [map fst]. constructor; [|apply IH].
+  intros H. apply in_map_iff in H. destruct H as ([k v] & E & H). cbn in E. subst k.
+  apply heads_only_spec in H. destruct H as [H _]. rewrite key_mem_cons, eqb_refl in H. discriminate.
+Qed.
+
+Lemma kv_get_firstn (l : list (key * val)) m k v : kv_get (firstn m l) k = Some v -> kv_get l k = Some v.
+Proof.
+  revert m. induction l as [|[k0 v0] r IH]; intros m H; destruct m; cbn [firstn kv_get] in *; try discriminate.
+  destruct (bytes_eqb k0 k); [exact H|eapply IH; exact H].
+Qed.
+
+Lemma C07_inspect_stage_proof : forall st h,
+  let b := x_b st in
+  let pos := nth (length (b_stages b) - h) (b_stages b) O in
+  let lvl := firstn (length (b_log b) - pos) (b_log b) in     (* the log entries of level h and above *)
+  NoDup (map (fun e => fst (fst e)) (x_inspect_stage st h)) /\
+  (forall k f v, In (k, f, v) (x_inspect_stage st h) <->
+                 kv_get lvl k = Some v /\ f = match x_get_flags st k with Some f => f | None => 0 end) /\
+  (forall k f v, In (k, f, v) (x_inspect_stage st h) -> buf_get b k = Some v).
+Proof.
+  intros st h b pos lvl. unfold x_inspect_stage. fold b. fold pos. fold lvl.
+  assert (S : forall k f v, In (k, f, v) (map (fun e => (fst e, match fl_get (x_kf st) (fst e) with Some f => f | None => 0 end, snd e)) (heads_only [] lvl)) <->
+              kv_get lvl k = Some v /\ f = match x_get_flags st k with Some f => f | None => 0 end).
+  { intros k f v. rewrite in_map_iff. split.
+    - intros ([k0 v0] & E & H). cbn [fst snd] in E. injection E as -> <- ->.
+      apply heads_only_spec in H. destruct H as [_ H]. split; [exact H|reflexivity].
+    - intros [H ->]. exists (k, v). split; [reflexivity|]. apply heads_only_spec. split; [reflexivity|exact H]. }
+  split; [|split; [exact S|]].
+  - rewrite map_map. cbn [fst]. apply heads_only_nodup.
+  - intros k f v H. apply S in H. destruct H as [H _]. unfold buf_get. eapply kv_get_firstn. exact H.
+Qed.
